@@ -326,6 +326,7 @@ def materialise(ctx, ref):
     if is_lazy(v):
         sel, variants = v.payload
         k = ctx.concretize(sel, 0, len(variants), "shape of a lazy vector")
+        MT._memo(ctx)["lazy-shape"] = k       # for the harness (vacuity witnesses)
         write_ref(r, variants[k])
 
 
